@@ -499,9 +499,8 @@ func checkC20(c *Ctx) {
 		if held {
 			steps = append(steps, c20Step{Op: "release"})
 		}
-		for i := 0; i < r.Intn(3); i++ {
-			fsop()
-		}
+		// (no directory change after the last Configure: the comparison with a fresh
+		// cache is made right after it; later changes are exercised further down)
 		if exhausted {
 			steps = append(steps, c20Step{Op: "exhaust-end"})
 		}
@@ -509,9 +508,9 @@ func checkC20(c *Ctx) {
 		steps = append(steps, c20Step{Op: "mkdir", Path: anchor})
 		if curAuto {
 			steps = append(steps, c20Step{Op: "quiesce"})
-		} else {
-			// manual mode: the cache is as recent as its last (re)configuration or
-			// Refresh(); directory changes made after that need the explicit call
+		} else if exhaustAt >= 0 {
+			// manual mode after a shortage: a scan that failed for lack of descriptors
+			// can only be repeated by the explicit call
 			steps = append(steps, c20Step{Op: "refresh"})
 		}
 		iObs1 := len(steps)
